@@ -199,6 +199,26 @@ fn body_interiors_mut_pop(n: usize) {
 }
 k_harness!(c18_k_interiors_mut_pop_2, body_interiors_mut_pop(2));
 
+/// two holes, both opened by the closure (every ring must be re-closed, not only the first open one)
+#[cfg(kani)]
+fn body_interiors_mut_pop2(fallible: bool) {
+    let mut holes = Vec::with_capacity(2);
+    holes.push(ring_i32(2));
+    holes.push(ring_i32(2));
+    let mut p = Polygon::new(ring_i32(0), holes);
+    if fallible {
+        let fail: bool = kani::any();
+        let _ = p.try_interiors_mut(|rings| { rings[0].0.pop(); rings[1].0.pop(); if fail { Err(()) } else { Ok(()) } });
+    } else {
+        p.interiors_mut(|rings| { rings[0].0.pop(); rings[1].0.pop(); });
+    }
+    assert!(p.interiors().len() == 2);
+    assert!(ring_closed(&p.interiors()[0]));
+    assert!(ring_closed(&p.interiors()[1]));
+}
+k_harness!(c18_k_interiors_mut_pop2, body_interiors_mut_pop2(false));
+k_harness!(c18_k_try_interiors_mut_pop2, body_interiors_mut_pop2(true));
+
 #[cfg(kani)]
 fn body_interiors_push(n: usize) {
     let mut p = Polygon::new(ring_i32(2), interiors_cfg(1));
@@ -286,25 +306,30 @@ fn c18_k_rect_set_ok() {
     assert!(r.min().x <= r.max().x && r.min().y <= r.max().y);
 }
 
-/// ... and never return otherwise (every call that would break min <= max panics)
+/// ... for EVERY argument: whenever set_min / set_max return, the invariant holds.  Kani reports the
+/// rejecting panic of `assert_valid_bounds` as a failed check; the runner accepts exactly that
+/// check (registry `allowed_panics`) and nothing else, so a call that returns with min > max fails
+/// the assertion below.
 #[cfg(kani)]
 #[kani::proof]
-#[kani::should_panic]
-fn c18_k_rect_set_min_rejects() {
+fn c18_k_rect_set_min_total() {
     let mut r = Rect::new(any_coord_i32(), any_coord_i32());
     let c = any_coord_i32();
-    kani::assume(!(c.x <= r.max().x && c.y <= r.max().y));
+    let max = r.max();
     r.set_min(c);
+    assert!(r.min().x <= r.max().x && r.min().y <= r.max().y);
+    assert!(r.min() == c && r.max() == max);
 }
 
 #[cfg(kani)]
 #[kani::proof]
-#[kani::should_panic]
-fn c18_k_rect_set_max_rejects() {
+fn c18_k_rect_set_max_total() {
     let mut r = Rect::new(any_coord_i32(), any_coord_i32());
     let c = any_coord_i32();
-    kani::assume(!(r.min().x <= c.x && r.min().y <= c.y));
+    let min = r.min();
     r.set_max(c);
+    assert!(r.min().x <= r.max().x && r.min().y <= r.max().y);
+    assert!(r.max() == c && r.min() == min);
 }
 
 // ---- conversions preserve coordinates and order (loop-free, all i32) ------------------------
